@@ -44,6 +44,7 @@ var vR struct {
 	ni, di  int
 	reached []string
 	notes   []string
+	obs     []string
 	nDraws  int
 	srcs    map[*rand.PCGSource]int
 }
@@ -52,7 +53,7 @@ func vReset(f *vReplayFile) {
 	vR.file = f
 	vR.nondet, vR.draws = nil, nil
 	vR.ni, vR.di, vR.nDraws = 0, 0, 0
-	vR.reached, vR.notes = nil, nil
+	vR.reached, vR.notes, vR.obs = nil, nil, nil
 	vR.srcs = map[*rand.PCGSource]int{}
 	for _, s := range f.Syms {
 		switch s.Kind {
@@ -111,6 +112,7 @@ func vFail(tag string)       { panic(vAssertFailure{tag}) }
 func vReach(tag string)      { vR.reached = append(vR.reached, tag) }
 func vNote(k string, v any)  { vR.notes = append(vR.notes, k+"="+fmt.Sprint(v)) }
 func vSymbolic() bool        { return false }
+func vObserve(k string, v any) { vR.obs = append(vR.obs, k+"="+fmt.Sprint(v)) }
 func vDrawCount() int        { return vR.nDraws }
 func vGlobalRandUses() int   { return 0 }
 func vWork() int64           { return 0 }
